@@ -50,4 +50,210 @@ theorem ldexp_exact_normal (t : Nat) (e : Int) (hlo : 2 ^ 52 ≤ t) (hhi : t < 2
   · simp; omega
   · simp; omega
 
+/-! ### the second rounding inside `ldexp`: subnormal results and overflow -/
+
+theorem rneShift_cases (t s : Nat) : rneShift t s = t / 2 ^ s ∨ (rneShift t s = t / 2 ^ s + 1 ∧ t % 2 ^ s ≠ 0) := by
+  unfold rneShift
+  by_cases hs : s = 0
+  · left; simp [hs]
+  · rw [if_neg hs]
+    simp only [Nat.shiftRight_eq_div_pow]
+    split
+    · rename_i h
+      right
+      refine ⟨rfl, ?_⟩
+      have hp : 0 < 2 ^ (s - 1) := Nat.two_pow_pos _
+      rcases h with h | h <;> omega
+    · left; rfl
+
+theorem succ_div_cases (f P : Nat) (hp : 0 < P) :
+    (f + 1) / P = f / P ∨ ((f + 1) / P = f / P + 1 ∧ (f + 1) % P = 0) := by
+  have h1 := Nat.div_add_mod f P
+  have h2 := Nat.mod_lt f hp
+  by_cases hc : f % P + 1 = P
+  · right
+    have e : f + 1 = P * (f / P + 1) := by rw [Nat.mul_add]; omega
+    constructor
+    · rw [e, Nat.mul_div_cancel_left _ hp]
+    · rw [e]; exact Nat.mul_mod_right _ _
+  · left
+    have e : f + 1 = P * (f / P) + (f % P + 1) := by omega
+    have hlt : f % P + 1 < P := by omega
+    rw [e, Nat.mul_add_div hp, Nat.div_eq_of_lt hlt]; simp
+
+/-- ★ double rounding keeps faithfulness: a faithful rounding `t` of `N/D`, rounded again (to nearest even) onto the 2^s
+    times coarser grid, is still the floor or — only if inexact — the ceiling of the exact value on that grid.
+    (Not necessarily the *nearest* any more; "one of the two adjacent doubles" is what the property asks.) -/
+theorem rne_faithful (t N D s : Nat) (hD : 0 < D) (hF : FaithfulN t N D) : FaithfulN (rneShift t s) N (D * 2 ^ s) := by
+  have hp : 0 < 2 ^ s := Nat.two_pow_pos _
+  have hdd : N / (D * 2 ^ s) = N / D / 2 ^ s := by rw [Nat.div_div_eq_div_mul]
+  have hmul : ∀ k, (k * 2 ^ s * D) % (D * 2 ^ s) = 0 := by
+    intro k
+    have : k * 2 ^ s * D = (D * 2 ^ s) * k := by ring
+    rw [this]; exact Nat.mul_mod_right _ _
+  -- if D*2^s divides N then 2^s divides N/D and D divides N
+  have hdiv : N % (D * 2 ^ s) = 0 → (N / D) % 2 ^ s = 0 ∧ N % D = 0 := by
+    intro hz
+    obtain ⟨k, hk⟩ := Nat.dvd_of_mod_eq_zero hz
+    have e1 : N = D * (2 ^ s * k) := by rw [hk]; ring
+    constructor
+    · rw [e1, Nat.mul_div_cancel_left _ hD]; exact Nat.mul_mod_right _ _
+    · rw [e1]; exact Nat.mul_mod_right _ _
+  unfold FaithfulN at *
+  rw [hdd]
+  set f := N / D with hf
+  rcases hF with h | ⟨h, hne⟩
+  · -- t = floor
+    rw [h]
+    rcases rneShift_cases f s with r | ⟨r, rne⟩
+    · left; exact r
+    · right; refine ⟨r, ?_⟩
+      intro hz; exact rne (hdiv hz).1
+  · -- t = floor + 1, inexact
+    have hinex : N % (D * 2 ^ s) ≠ 0 := fun hz => hne (hdiv hz).2
+    rw [h]
+    have hq := succ_div_cases f (2 ^ s) hp
+    rcases rneShift_cases (f + 1) s with r | ⟨r, rne⟩
+    · rcases hq with q | ⟨q, _⟩
+      · left; rw [r, q]
+      · right; exact ⟨by rw [r, q], hinex⟩
+    · rcases hq with q | ⟨q, qz⟩
+      · right; exact ⟨by rw [r, q], hinex⟩
+      · exact absurd qz rne
+
+theorem bitLen_le_53 (t : Nat) (h : t < 2 ^ 53) : bitLen t ≤ 53 := by
+  by_cases h0 : t = 0
+  · simp [bitLen, h0]
+  · have := (bitLen_bounds t h0).1
+    by_contra hc
+    have h53 : 53 ≤ bitLen t - 1 := by omega
+    have : 2 ^ 53 ≤ 2 ^ (bitLen t - 1) := Nat.pow_le_pow_right (by decide) h53
+    omega
+
+/-- below the normal range `ldexp((double) t, e)` returns the bit pattern `rneShift t (−1074 − e)`: a count of 2^−1074
+    units (patterns 0..2^52 denote pattern·2^−1074, 2^52 being the smallest normal) -/
+theorem ldexp_subnormal_bits (t : Nat) (e : Int) (ht0 : t ≠ 0) (ht : t < 2 ^ 53) (he : e < -1074) :
+    ldexpBits t e = rneShift t (-1074 - e).toNat ∧ ldexpBits t e ≤ 2 ^ 52 := by
+  have hl := bitLen_le_53 t ht
+  have hb : rneShift t (-1074 - e).toNat ≤ 2 ^ 52 := by
+    obtain ⟨s, hs⟩ : ∃ s : Nat, (-1074 - e).toNat = s + 1 := ⟨(-1074 - e).toNat - 1, by omega⟩
+    rw [hs]
+    have hdiv : t / 2 ^ (s + 1) < 2 ^ 52 := by
+      rw [Nat.div_lt_iff_lt_mul (Nat.two_pow_pos _)]
+      calc t < 2 ^ 53 := ht
+        _ = 2 ^ 52 * 2 ^ 1 := by norm_num
+        _ ≤ 2 ^ 52 * 2 ^ (s + 1) := Nat.mul_le_mul_left _ (Nat.pow_le_pow_right (by decide) (by omega))
+    rcases rneShift_cases t (s + 1) with r | ⟨r, _⟩ <;> omega
+  have hval : ldexpBits t e = rneShift t (-1074 - e).toNat := by
+    unfold ldexpBits
+    rw [if_neg ht0]
+    simp only
+    have c1 : ¬ (e + (bitLen t : Int) - 1 > 1100) := by omega
+    rw [if_neg c1]
+    have c2 : e + (bitLen t : Int) - 1 - 52 < -1074 := by omega
+    rw [if_pos c2]
+    have c3 : ¬ ((-1074 : Int) ≤ e) := by omega
+    rw [if_neg c3]
+    have p52 : (2 : Nat) ^ 52 = 4503599627370496 := by norm_num
+    rw [p52] at hb
+    generalize rneShift t (-1074 - e).toNat = mant at *
+    have c4 : ¬ (((-1074 : Int) + 1074) * 4503599627370496 + (mant : Int) ≥ 0x7FF0000000000000) := by omega
+    rw [if_neg c4]
+    omega
+  exact ⟨hval, by rw [hval]; exact hb⟩
+
+/-- ★ subnormal results: `bignat_extract` + correctly rounded `ldexp` is still faithful — the returned pattern (a count
+    of 2^−1074 units) is the floor or, only if inexact, the ceiling of the exact value measured in those units: one of
+    the two adjacent doubles, the value itself when representable. -/
+theorem ldexp_faithful_subnormal (t N D : Nat) (e : Int) (hD : 0 < D) (ht0 : t ≠ 0) (ht : t < 2 ^ 53) (he : e < -1074)
+    (hF : FaithfulN t N D) :
+    FaithfulN (ldexpBits t e) N (D * 2 ^ (-1074 - e).toNat) ∧ ldexpBits t e ≤ 2 ^ 52 := by
+  obtain ⟨hv, hb⟩ := ldexp_subnormal_bits t e ht0 ht he
+  exact ⟨by rw [hv]; exact rne_faithful t N D _ hD hF, hb⟩
+
+/-- ★ overflow: for a normalised significand and e ≥ 972, `ldexp` returns +inf … -/
+theorem ldexp_overflow_bits (t : Nat) (e : Int) (hlo : 2 ^ 52 ≤ t) (hhi : t < 2 ^ 53) (he : 972 ≤ e) :
+    ldexpBits t e = infBits := by
+  have hl := bitLen_53 t hlo hhi
+  have p52 : (2 : Nat) ^ 52 = 4503599627370496 := by norm_num
+  rw [p52] at hlo
+  have h0 : t ≠ 0 := by omega
+  unfold ldexpBits
+  rw [if_neg h0]
+  simp only [hl]
+  by_cases c1 : e + ((53 : Nat) : Int) - 1 > 1100
+  · rw [if_pos c1]
+  · rw [if_neg c1]
+    have c2 : ¬ (e + ((53 : Nat) : Int) - 1 - 52 < -1074) := by omega
+    rw [if_neg c2]
+    have eq : e + ((53 : Nat) : Int) - 1 - 52 = e := by omega
+    rw [eq]
+    simp only [le_refl, if_true, Int.sub_self, Int.toNat_zero, Nat.shiftLeft_zero]
+    have c3 : (e + 1074) * 4503599627370496 + (t : Int) ≥ 0x7FF0000000000000 := by omega
+    rw [if_pos c3]
+
+/-- … and the exact value is then indeed above DBL_MAX = (2^53−1)·2^971 (so DBL_MAX and +inf are its two neighbours):
+    from the magnitude fact `(2^54−1)·D ≤ 4·N` that `extract_faithful_*` provide for the exact value `N/D` (in units of
+    2^e), `N/D · 2^e > (2^53−1)·2^971` whenever e ≥ 972. -/
+theorem overflow_value_gt_dblmax (N D e : Nat) (hD : 0 < D) (hmag : (2 ^ 54 - 1) * D ≤ 4 * N) (he : 972 ≤ e) :
+    (2 ^ 53 - 1) * 2 ^ 971 * D < N * 2 ^ e := by
+  have hpe : 2 ^ 972 ≤ 2 ^ e := Nat.pow_le_pow_right (by decide) he
+  have h1 : N * 2 ^ 972 ≤ N * 2 ^ e := Nat.mul_le_mul_left _ hpe
+  have e972 : (2 : Nat) ^ 972 = 4 * 2 ^ 970 := by rw [show (972 : Nat) = 2 + 970 by rfl, pow_add]; norm_num
+  have e971 : (2 : Nat) ^ 971 = 2 * 2 ^ 970 := by rw [show (971 : Nat) = 1 + 970 by rfl, pow_add]; norm_num
+  have hP : 0 < 2 ^ 970 := Nat.two_pow_pos _
+  generalize (2 : Nat) ^ 970 = P at *
+  rw [e972] at h1
+  rw [e971]
+  have h3 : (2 ^ 54 - 1) * D * P ≤ 4 * N * P := Nat.mul_le_mul_right _ hmag
+  have c53 : (2 : Nat) ^ 53 - 1 = 9007199254740991 := by norm_num
+  have c54 : (2 : Nat) ^ 54 - 1 = 18014398509481983 := by norm_num
+  rw [c54] at h3; rw [c53]
+  have hDP : 0 < D * P := Nat.mul_pos hD hP
+  nlinarith
+
+/-- ★ the one-digit case of `bignat_extract` (`top53 = first_digit`, exponent 0) and any integer below 2^53:
+    `ldexp((double) t, 0)` is exact — the pattern decodes to (t·2^k, −k) with k = 53 − bitlength(t). -/
+theorem ldexp_exact_int (t : Nat) (ht0 : t ≠ 0) (ht : t < 2 ^ 53) :
+    decodeBits (ldexpBits t 0) = (t * 2 ^ (53 - bitLen t), -((53 - bitLen t : Nat) : Int)) := by
+  obtain ⟨hlo, hhi, hpos⟩ := bitLen_bounds t ht0
+  have hl := bitLen_le_53 t ht
+  have e52 : 2 ^ (bitLen t - 1) * 2 ^ (53 - bitLen t) = 2 ^ 52 := by rw [← pow_add]; congr 1; omega
+  have e53 : 2 ^ bitLen t * 2 ^ (53 - bitLen t) = 2 ^ 53 := by rw [← pow_add]; congr 1; omega
+  have m1 : 2 ^ 52 ≤ t * 2 ^ (53 - bitLen t) := by rw [← e52]; exact Nat.mul_le_mul_right _ hlo
+  have m2 : t * 2 ^ (53 - bitLen t) < 2 ^ 53 := by
+    rw [← e53]; exact Nat.mul_lt_mul_of_pos_right hhi (Nat.two_pow_pos _)
+  have p52 : (2 : Nat) ^ 52 = 4503599627370496 := by norm_num
+  have p53 : (2 : Nat) ^ 53 = 9007199254740992 := by norm_num
+  rw [p52] at m1; rw [p53] at m2
+  clear hlo hhi e52 e53 p52 p53 ht
+  unfold ldexpBits
+  rw [if_neg ht0]
+  simp only
+  have c1 : ¬ ((0 : Int) + (bitLen t : Int) - 1 > 1100) := by omega
+  rw [if_neg c1]
+  have c2 : ¬ ((0 : Int) + (bitLen t : Int) - 1 - 52 < -1074) := by omega
+  rw [if_neg c2]
+  have c3 : (0 : Int) + (bitLen t : Int) - 1 - 52 ≤ 0 := by omega
+  rw [if_pos c3]
+  have hs : (0 - ((0 : Int) + (bitLen t : Int) - 1 - 52)).toNat = 53 - bitLen t := by omega
+  rw [hs, Nat.shiftLeft_eq]
+  generalize t * 2 ^ (53 - bitLen t) = mant at *
+  obtain ⟨k, hk⟩ : ∃ k : Nat, (0 : Int) + (bitLen t : Int) - 1 - 52 + 1074 = (k : Int) := ⟨bitLen t + 1021, by omega⟩
+  have hkv : k = bitLen t + 1021 := by omega
+  rw [hk]
+  have c4 : ¬ ((k : Int) * 4503599627370496 + (mant : Int) ≥ 0x7FF0000000000000) := by omega
+  rw [if_neg c4]
+  have hnat : ((k : Int) * 4503599627370496 + (mant : Int)).toNat = k * 4503599627370496 + mant := by omega
+  rw [hnat]
+  unfold decodeBits
+  have hef : (k * 4503599627370496 + mant) / 4503599627370496 % 2048 = k + 1 := by omega
+  have hf : (k * 4503599627370496 + mant) % 4503599627370496 = mant - 4503599627370496 := by omega
+  simp only [hef, hf]
+  have : k + 1 ≠ 0 := by omega
+  rw [if_neg this]
+  refine Prod.ext ?_ ?_
+  · simp; omega
+  · simp; omega
+
 end JanetModel.Strtod
